@@ -128,7 +128,8 @@ func (k msgServer) SetSendEnabled(goCtx context.Context, msg *types.MsgSetSendEn
 
 func (k msgServer) sendCoinsWithERC20(ctx sdk.Context, from sdk.AccAddress, to sdk.AccAddress, amt sdk.Coins) error {
 	// Use original SendCoins method is ERC20 is disabled
-	if !k.ek.IsERC20Enabled(ctx) {
+	// ... or if one of the parties has no EVM address (its address is not 20 bytes long)
+	if !k.ek.IsERC20Enabled(ctx) || len(from) != common.AddressLength || len(to) != common.AddressLength {
 		return k.SendCoins(ctx, from, to, amt)
 	}
 
